@@ -43,12 +43,36 @@ def df_vars(r: Resolver, f: FuncInfo) -> Set[str]:
     return out
 
 
+_RET_DF_MEMO: Dict[FuncInfo, bool] = {}
+
+
+def returns_df(r: Resolver, g: FuncInfo, depth: int = 0) -> bool:
+    """package function whose result is a DataFrame: annotated so, or every return expression is DataFrame-typed"""
+    if g in _RET_DF_MEMO:
+        return _RET_DF_MEMO[g]
+    _RET_DF_MEMO[g] = False
+    if isinstance(g.node, ast.Lambda) or depth > 3:
+        return False
+    if _is_df_annotation(r, g, g.node.returns):
+        _RET_DF_MEMO[g] = True
+        return True
+    rets = [n for n in body_nodes(g) if isinstance(n, ast.Return) and n.value is not None]
+    if rets:
+        dfs = df_vars(r, g)
+        if all(is_df_expr(r, g, rt.value, dfs) for rt in rets):
+            _RET_DF_MEMO[g] = True
+            return True
+    return False
+
+
 def is_df_expr(r: Resolver, f: FuncInfo, e: ast.AST, dfs: Set[str]) -> bool:
     if isinstance(e, ast.Name):
         return e.id in dfs
     if isinstance(e, ast.Call):
         tg = r.resolve_call(f, e)
         if any(isinstance(t, str) and t.startswith("ext:") and t[4:] in DF_SOURCES for t in tg):
+            return True
+        if any(isinstance(t, FuncInfo) and returns_df(r, t) for t in tg):
             return True
         if isinstance(e.func, ast.Attribute) and e.func.attr in DF_PRESERVING and is_df_expr(r, f, e.func.value, dfs):
             return True
@@ -65,6 +89,7 @@ def is_df_expr(r: Resolver, f: FuncInfo, e: ast.AST, dfs: Set[str]) -> bool:
 
 
 def check_dataframe_api(ctx: CheckContext, p: Program, r: Resolver, modules: List[str], rule: str = "API-DF"):
+    _RET_DF_MEMO.clear()
     ctx.rule(rule, "every method invoked on a value statically known to be a pandas DataFrame exists on the installed pandas.DataFrame")
     try:
         pd = importlib.import_module("pandas")
